@@ -1824,7 +1824,8 @@ def frame_reset_index(E, f, args, node):
 def np_interp(E, args, node):
     """ASSUMED library contract of np.interp(x, xp, fp) for a non-empty, strictly increasing xp and finite fp (both are
     obligations at the call): the result has x's length and is finite; equals fp[0] / fp[-1] at and outside the end
-    knots; takes the value fp[k] where x equals xp[k]; and on every knot interval [xp[s], xp[s+1]] it is strictly
+    knots; takes the value fp[k] where x equals xp[k]; every x in [xp[0], xp[-1]) lies in some [xp[s], xp[s+1]); and on every
+    knot interval [xp[s], xp[s+1]] it is strictly
     increasing, strictly decreasing or constant in x according to fp[s] <, >, == fp[s+1].  (Weaker than the exact
     linear formula, which is not needed and would bring nonlinear arithmetic; true of it in real arithmetic.)"""
     x, xp, fp = args.get(0, 'x'), args.get(1, 'xp'), args.get(2, 'fp')
@@ -1858,8 +1859,8 @@ def np_interp(E, args, node):
         fin=lambda a: z3.Implies(inr(a), z3.And(xops.isfin(O(a)), xops.wf(O(a).t))),
         left=lambda a: z3.Implies(z3.And(inr(a), X_(a) <= XP(0)), xops.same(O(a), FP(0))),
         right=lambda a: z3.Implies(z3.And(inr(a), X_(a) >= XP(m - 1)), xops.same(O(a), FP(m - 1))),
-        seg=lambda a: z3.Implies(z3.And(inr(a), m >= 2, XP(0) <= X_(a), X_(a) <= XP(m - 1)),
-                                 z3.And(seg(a) >= 0, seg(a) <= m - 2, XP(seg(a)) <= X_(a), X_(a) <= XP(seg(a) + 1))),
+        seg=lambda a: z3.Implies(z3.And(inr(a), m >= 2, XP(0) <= X_(a), X_(a) < XP(m - 1)),
+                                 z3.And(seg(a) >= 0, seg(a) <= m - 2, XP(seg(a)) <= X_(a), X_(a) < XP(seg(a) + 1))),
         knot=lambda a, b: z3.Implies(z3.And(inr(a), b >= 0, b < m, X_(a) == XP(b)), xops.same(O(a), FP(b))),
         mono=lambda a, a2, b: z3.Implies(
             z3.And(inr(a), inr(a2), b >= 0, b < m - 1, XP(b) <= X_(a), X_(a) < X_(a2), X_(a2) <= XP(b + 1)),
